@@ -195,7 +195,7 @@ def gen_constraint(rng, node, mode):
     return [[list(a), support_value(rng, cm[a])] for a in chosen]
 
 
-BUILD_STYLES = ["set", "set", "dict", "merge_rev", "extend", "arrayidx", "slice", "vmapped"]
+BUILD_STYLES = ["set", "set", "dict", "merge_rev", "extend", "arrayidx", "slice", "vmapped", "nested", "nested"]
 
 
 # -------------------------------------------------------------------- profiles
@@ -325,6 +325,8 @@ def profile_for(pid, tier):
     elif pid == "C23":
         P["perts"].update({"stage:jit": 8, "stage:vmap": 5, "boundary:jit-id": 4})
         P["pert_rate"] = 0.9
+        P["oob_index"] = 0.1
+        G["kinds"].update({"switch": 5, "mask": 3})
     elif pid == "C38":
         P["ops"].update({"empty_edit": 4, "static_edit": 4, "simulate": 4, "importance": 3})
     elif pid == "C04":
